@@ -313,6 +313,12 @@ func (c *Ctx) Finish(rule string) int {
 		"notes":                         c.notes,
 		"go_version":                    runtime.Version(),
 	}
+	if c.assumptions == nil {
+		c.assumptions = []string{}
+	}
+	if c.notes == nil {
+		c.notes = []string{}
+	}
 	ev := map[string]interface{}{
 		"property_id": c.Prop,
 		"tier":        c.Tier,
